@@ -490,6 +490,134 @@ def case_crowd(rng, big=False):
     return ops
 
 
+def chunks(acts, limit=62):
+    """cuts a behaviour into pieces that fit an `on` line (the harness reads at most 64 tokens per line)"""
+    out, cur, used = [], [], 5
+    for x in acts:
+        k = 1 + len(x.split())
+        if used + k > limit and cur:
+            out.append(cur)
+            cur, used = [], 5
+        cur.append(x)
+        used += k
+    out.append(cur)
+    return out
+
+
+def on_line(ent, kind, acts):
+    return 'on %s %s 0 0' % (ent, kind) + ''.join(' / ' + x for x in acts)
+
+
+def removal_order(rng, ids):
+    """orders in which an application gives up clients: oldest first, newest first, interleaved from both ends, evens then odds, random"""
+    x = rng.randrange(6)
+    if x == 0:
+        return list(ids)
+    if x == 1:
+        return list(reversed(ids))
+    if x == 2:
+        out, a, b = [], 0, len(ids) - 1
+        while a <= b:
+            out.append(ids[a]); a += 1
+            if a <= b:
+                out.append(ids[b]); b -= 1
+        return out
+    if x == 3:
+        return list(ids[0::2]) + list(ids[1::2])
+    if x == 4:
+        return list(ids[1::2]) + list(ids[0::2])
+    out = list(ids)
+    rng.shuffle(out)
+    return out
+
+
+def case_closing(rng, big=False):
+    """9..18 clients (more than the 8 buckets of the closing set: two of them share a bucket whatever their addresses) whose read or write
+    FAILS IN THE SAME ROUND - one callback (an onRead, a timer) or the application at top level reads/writes them all - and that are then
+    removed in varying orders (oldest first, newest first, interleaved, random; all or all but a few): right away, from a second timer of
+    the same tick, from the first onClosed of the closing pass, at top level before run(); the clients that are left get their onClosed
+    (and remove themselves there or stay); a second wave re-uses the pool slots"""
+    n = rng.randrange(9, 19)
+    ops = ['pair %d' % i for i in range(n)]
+    order = list(range(n))
+    if rng.random() < 0.4:
+        rng.shuffle(order)
+    nrecv = nsend = 0
+    fails = []
+    wr = rng.choice([0.0, 0.0, 0.2, 0.5])
+    for i in order:
+        if rng.random() < wr:
+            fails.append('write %d 2' % i); nsend += 1
+        else:
+            fails.append('read %d' % i); nrecv += 1
+    keep = rng.choice([0, 0, 1, 2, 3])                    # clients the application does not remove itself before the closing pass
+    victims = removal_order(rng, order)
+    if keep:
+        drop = set(rng.sample(order, keep))
+        victims = [v for v in victims if v not in drop]
+    if rng.random() < 0.2:
+        victims = victims[:rng.randrange(2, len(victims) + 1)]
+    rms = ['rmclient %d' % v for v in victims]
+    where1 = rng.choice(['top', 'timer', 'read'])
+    where2 = rng.choice({'top': ['same', 'same', 'timer', 'closed'], 'timer': ['same', 'same', 'closed'], 'read': ['same', 'closed']}[where1])
+    if where1 == 'read' and (len(chunks(fails)) > 1 or (where2 == 'same' and len(chunks(fails + rms)) > 1)):
+        where1 = 'timer'                                  # too long for one onRead: a chain of timers of the same tick does it
+    if nrecv:
+        ops.append('recvq ' + ' '.join(rng.choice('zzze') for _ in range(nrecv)))
+    if nsend:
+        ops.append('sendq ' + ' '.join('e' for _ in range(nsend)))
+    ready = []
+    tacts = []                                            # behaviour of the timer phase, spread over timers t0, t1, … of the same tick
+    if where1 == 'top':
+        ops += fails
+        if where2 == 'same':
+            ops += rms
+        elif where2 == 'timer':
+            tacts = rms
+    elif where1 == 'timer':
+        tacts = fails + (rms if where2 == 'same' else [])
+    else:
+        ready.append('c%d=1' % order[0])
+        ops.append(on_line('c%d' % order[0], 'read', fails + (rms if where2 == 'same' else [])))
+    if tacts:
+        iv = rng.choice([1, 5])
+        parts = chunks(tacts)
+        if where1 == 'timer' and where2 == 'same' and rng.random() < 0.5:
+            parts = chunks(fails) + chunks(rms)
+        for k, part in enumerate(parts):
+            ops.append('timer %d %d' % (k, iv))
+            ops.append(on_line('t%d' % k, 'act', part))
+        ops.append('adv %d' % iv)
+    if where2 == 'closed':
+        ops.append(on_line('c%d' % order[0], 'closed', chunks(rms)[0]))
+    # the clients that reach the closing pass: some remove themselves in onClosed, some stay (and may fail again later)
+    for i in order:
+        x = rng.random()
+        if x < 0.5:
+            ops.append('on c%d closed 0 0 / rmclient %d' % (i, i))
+        elif x < 0.6:
+            ops.append('on c%d closed 0 0 / rmclient %d / rmclient %d' % (i, rng.choice(order), i))
+    dt = rng.choice([0, 0, 1])
+    items = ['%d%s' % (dt, ':' + ','.join(ready) if ready else ''), '0', '0', '1']
+    ops.append('run ' + ' '.join(items))
+    if rng.random() < 0.6:
+        # second wave: new clients (they get the pool slots and the set items of the removed ones) and the survivors fail together
+        m = rng.randrange(3, 12)
+        news = list(range(30, 30 + m))
+        ops += ['pair %d' % k for k in news]
+        both = news + [i for i in order if rng.random() < 0.5]
+        rng.shuffle(both)
+        both = both[:18]
+        ops.append('recvq ' + ' '.join('z' for _ in both))
+        ops += ['read %d' % k for k in both]
+        ops += ['rmclient %d' % k for k in removal_order(rng, both)[:rng.randrange(0, len(both) + 1)]]
+        for k in news:
+            if rng.random() < 0.5:
+                ops.append('on c%d closed 0 0 / rmclient %d' % (k, k))
+        ops.append('run 0 0 1')
+    return ops
+
+
 def case_mt(rng, big=False):
     """rounds on the real kernel (real eventfd/epoll, real time) with a loop thread and one or two interrupting threads: interrupt()
     before / during / racing with run(), stalls around the write to the event descriptor, a host-name lookup (getaddrinfo interposed)
@@ -563,6 +691,10 @@ SMOKE = [
     ['pair 1', 'timer 0 5', 'run 2! 5! 0:c1=1 3!', 'interrupt', 'run 1!'],
     # an uptime of 24.9 days and a timer of 49.7 days + 5 ms
     ['adv 2147483645', 'timer 0 4294967301', 'timer 1 5', 'run 5 5', 'rmtimer 1', 'run 4294967286 5 5'],
+    # round 6: twelve clients (more than the 8 buckets of the closing set) fail their read in the same round and are removed oldest
+    # first / the rest from the first onClosed, newest first: no callback for a client whose remove() has returned
+    ['pair %d' % i for i in range(12)] + ['recvq ' + ' '.join('z' for _ in range(12))] + ['read %d' % i for i in range(12)] +
+    ['rmclient %d' % i for i in range(6)] + ['on c6 closed 0 0' + ''.join(' / rmclient %d' % i for i in (10, 9, 8, 7)), 'on c11 closed 0 0 / rmclient 11', 'run 0 0'],
     ['mt g0 ho g1000 b0'],
 ]
 
@@ -719,6 +851,10 @@ class C14(Check):
                   'independent bounded-liveness oracle on a LEVEL-TRIGGERED simulated epoll judge the implementation\'s own log. The simulated epoll_wait returns as many '
                   'events as the caller asks for (70..130 sockets ready at once: a caller that asks for more than its array holds is caught by ASan), can fail with EINTR, '
                   'and reports a negative time-out with nothing ready as a hang; clock bases and intervals beyond 2^31 / 2^32 are generated. '
+                  'Round 6: 9..18 clients (more than the 8 buckets of Server\'s set of closing clients, so that two share a bucket whatever their addresses) '
+                  'fail their read/write in the SAME round and are removed in varying orders (oldest first, newest first, interleaved, random; from the same callback, '
+                  'from a timer of the same tick, from the first onClosed, at top level), a second wave re-uses the pool slots; judged by the life-time monitor: no '
+                  'callback for a client whose remove() has returned. '
                   'Cross-thread interrupt(), signals, host-name lookups (failing and succeeding) and clear() run on the real kernel with real threads.')
     level_note = ('Round 4 closed the two liveness clauses inside the model, under hypotheses that are written out in the theorems: '
                   '(a) termination of one iteration: timer phase with explicit fuel bound tlag+1 (timer_phase_terminates; measure = over the entries due at '
@@ -752,6 +888,10 @@ class C14(Check):
                   'from the next epoll_wait passes). The closed clause is judged as "onClosed or removal before the loop has waited twice" (cmt); the stronger '
                   '"before the loop waits again" (cmon) holds in the model and is compared through the correspondence only - a closing pass moved in front of the '
                   'timer phase is not reported as a failing input any more. '
+                  '(e) round 6: the closing set of the model is a list without a bound (every theorem speaks about any number of clients that failed in one round; '
+                  'Example ex_many_closing_clients_in_one_round: twelve in the set, nine removed by the first onClosed, onClosed for the other three only); the hash set '
+                  'behind Server\'s closing set is property C02\'s code - C14 sees its defects only through their consequence (a removed client still called, a '
+                  'closing client never called), which stream closing provokes by pigeonhole on the 8 buckets. '
                   'Validated by correspondence only: insertion order among EQUAL due times. The 64-entry event array of Poll::poll is not in the model: an item is any '
                   'list of ready sockets, and a crowd of 70..130 ready sockets is written as a first item of 63 and continuation items, which is what consecutive '
                   'epoll_wait calls with a 64-entry array return; an EINTR failure of epoll_wait is for the loop the same as an item without ready sockets (the model '
@@ -781,7 +921,8 @@ class C14(Check):
             'pass), interrupt (before/during run, double), announce (clients removed by the onAccepted/onConnected that announces them, with and without a '
             'callback object handed back), late (timers created in onClosed and other callbacks), mt (real kernel + real threads: interrupt() before / during / '
             'racing with run(), two interrupters, signals, lookups completing together with an interrupt, removal with a pending lookup, clear()), wide (clock bases next to '
-            '2^31 / 2^32 / 2^41, intervals and waits of 24.9 days and more), crowd (70..130 sockets ready at once), items that fail with EINTR in every stream, random (also '
+            '2^31 / 2^32 / 2^41, intervals and waits of 24.9 days and more), crowd (70..130 sockets ready at once), closing (9..18 clients failing their read/write in one round, removed '
+            'oldest first / newest first / interleaved / at random before and inside the closing pass, second wave on the re-used slots), items that fail with EINTR in every stream, random (also '
             'the socket-option setters), scope '
             '(exhaustive in the thorough tier: every sequence of <= 2 actions of a 12-action alphabet inside an onRead callback x both epoll orders); '
             'non-trivial = the implementation made >= 2 callbacks inside a run() (mt: >= 3 rounds completed); distinct = distinct op text')
@@ -816,6 +957,7 @@ class C14(Check):
         out.append(Stream('late', [case_late(rng, th) for _ in range(100 * m)], note='timers created in onClosed / other callbacks; the loop must not sleep past a due time'))
         out.append(Stream('wide', [case_wide(rng, th) for _ in range(60 * m)], note='values beyond 32 bits: clock bases next to 2^31 / 2^32 / 2^41, timer intervals and waits of 24.9 days and more'))
         out.append(Stream('crowd', [case_crowd(rng, th) for _ in range(6 * (3 if th else 1))], note='70..130 sockets ready at the same moment (more than the 64-entry event array takes), handed out 63 per epoll_wait'))
+        out.append(Stream('closing', [case_closing(rng, th) for _ in range(100 * m)], note='9..18 clients whose read/write fails in the same round (more than the 8 buckets of the closing set), removed in varying orders before / inside the closing pass'))
         out.append(Stream('mt', [case_mt(rng, th) for _ in range(40 * m)], note='real kernel, real threads: interrupt() racing with run(), lookups completing together with an interrupt, clear()'))
         out.append(Stream('random', [case_random(rng, th) for _ in range(200 * m)]))
         if th:
